@@ -467,7 +467,9 @@ func (c06AuthCheck) InstanceName() string   { return "verif_auth" }
 func (c06AuthCheck) CheckStateForMsg(ctx context.Context, m *module.MsgMetadata) (module.CheckState, error) {
 	return c06AuthState{}, nil
 }
-func (c06AuthState) CheckConnection(ctx context.Context) module.CheckResult { return module.CheckResult{} }
+func (c06AuthState) CheckConnection(ctx context.Context) module.CheckResult {
+	return module.CheckResult{}
+}
 func (c06AuthState) CheckSender(ctx context.Context, from string) module.CheckResult {
 	return module.CheckResult{}
 }
